@@ -1,0 +1,37 @@
+//! Verification hooks (cargo feature `verif-hooks`, off by default).
+//!
+//! Used only by the external verification harness in /verif:
+//! * `yield_point(id)` is called immediately before selected atomic / filesystem
+//!   steps so that a harness-installed controller can force a chosen interleaving
+//!   of real threads on the real atomics. Without a controller it does nothing.
+//! * `flag(name)` / `threshold(name, default)` read `QE_VERIF_<NAME>` from the
+//!   environment so small generated files can reach code paths normally gated by
+//!   size thresholds.
+use std::sync::{Arc, RwLock};
+
+type Controller = Arc<dyn Fn(u32) + Send + Sync>;
+static CONTROLLER: RwLock<Option<Controller>> = RwLock::new(None);
+
+/// Install (or clear) the schedule controller.
+pub fn set_controller(c: Option<Controller>) {
+    *CONTROLLER.write().unwrap() = c;
+}
+
+/// Called before an instrumented step; blocks inside the controller if one is installed.
+#[inline]
+pub fn yield_point(id: u32) {
+    let c = CONTROLLER.read().unwrap().clone();
+    if let Some(c) = c {
+        c(id);
+    }
+}
+
+/// `QE_VERIF_<name>` set to anything but `0`/empty.
+pub fn flag(name: &str) -> bool {
+    std::env::var(format!("QE_VERIF_{name}")).map(|v| !v.is_empty() && v != "0").unwrap_or(false)
+}
+
+/// `QE_VERIF_<name>` parsed as u64, else `default`.
+pub fn threshold(name: &str, default: u64) -> u64 {
+    std::env::var(format!("QE_VERIF_{name}")).ok().and_then(|v| v.parse().ok()).unwrap_or(default)
+}
